@@ -1,13 +1,13 @@
 SPECIFICATION Spec
 CONSTANTS
   Indexes = {1}
-  Ids = {1, 2, 3}
-  Toks = {"a", "b"}
+  Ids = {1, 2}
+  Toks = {"a"}
   Metrics = {"f"}
   Dim = 2
   Caps = {1}
-  Reqs = {1}
-  MaxBuilds = 2
+  Reqs = {0, 1, 2, 3}
+  MaxBuilds = 3
   MaxTrivial = 1
   MinBatch = 2
   AsCodedInsert = FALSE
